@@ -219,7 +219,10 @@ def run(c, chk):
     chk.assumptions = ['allocation-failure paths belong to C18', 'user callbacks do not modify the option themselves']
     n = analyse(c, chk, 'R10.1', 'R10.2')
     chk.analysed = {'refusing_entry_points': len(REFUSERS), 'refusing_paths': n}
-    chk.floor('R10.1 refusing paths', n, 60)
+    chk.floor('R10.1 refusing paths', n, 40)
+    # R10.4: what a revert relies on - the annotation survives the dropping of defaults
+    from . import c01
+    c01.defaults_dropped_under_reset(c, chk, 'R10.4')
     # R10.3
     ex = sym.Explorer(c.modules, max_visits=2, mod_sets=c.mod_sets, max_paths=20000)
     for fname in ('cfg_setnint', 'cfg_setnfloat', 'cfg_setnstr'):
